@@ -74,4 +74,321 @@ AsGraph(gr, start) ==
    adj |-> [n \in 1 .. gr.n |-> SetToSeq({<<gr.es[i].s, gr.es[i].d, i>> : i \in {j \in DOMAIN gr.es : gr.es[j].s = n - 1}})]]
 
 TrieLang(clusters, dev) == GraphLang(AsGraph(BuildTrie(clusters, dev), 0))
+
+(***************************************************************************)
+(* S2  src/regexp.rs sort: by (byte length, lexicographic).  In the        *)
+(* bounded models a test case is a sequence of atoms whose ids follow code *)
+(* point order and which are all one byte long.                            *)
+(***************************************************************************)
+RECURSIVE LexLess(_, _)
+LexLess(x, y) == IF x = <<>> THEN y # <<>> ELSE IF y = <<>> THEN FALSE
+                 ELSE IF Head(x) # Head(y) THEN Head(x) < Head(y) ELSE LexLess(Tail(x), Tail(y))
+TcLess(x, y) == IF Len(x) # Len(y) THEN Len(x) < Len(y) ELSE LexLess(x, y)
+SortTcs(T) == SortSeq(SetToSeq(T), TcLess)
+
+(* S3 (no class / repetition conversion): one plain symbol per character *)
+PlainSym(a) == [u |-> <<<<a>>>>, lo |-> 1, hi |-> 1, nest |-> <<>>]
+PlainCluster(w) == [i \in DOMAIN w |-> PlainSym(w[i])]
+
+(***************************************************************************)
+(* S7  src/dfa.rs minimize: Hopcroft's refinement exactly as coded - the   *)
+(* partition is a SEQUENCE of sets (its order decides the numbering of the *)
+(* minimised states), the work list a queue, labels match on               *)
+(* value /\ (max \/ min).                                                  *)
+(***************************************************************************)
+SymKey(sym) == [i \in DOMAIN sym.u |-> sym.u[i][1]]
+SymLess(x, y) == IF SymKey(x) # SymKey(y) THEN LexLess(SymKey(x), SymKey(y))
+                 ELSE IF x.lo # y.lo THEN x.lo < y.lo ELSE x.hi < y.hi
+AlphaSeq(gr) == SortSeq(SetToSeq({gr.es[i].sym : i \in DOMAIN gr.es}), SymLess)
+
+LabelMatch(e, lab) == e.u = lab.u /\ (e.hi = lab.hi \/ e.lo = lab.lo)
+Parents(gr, A, lab) ==
+  {gr.es[i].s : i \in {j \in DOMAIN gr.es : gr.es[j].d \in A /\ LabelMatch(gr.es[j].sym, lab)}}
+
+RECURSIVE Refine(_, _, _, _)
+Refine(P, X, start, reps) ==
+  LET cand == {k \in start .. Len(P) : (X \cap P[k]) # {} /\ (P[k] \ X) # {}} IN
+  IF cand = {} THEN [P |-> P, reps |-> reps]
+  ELSE LET k == Min(cand)
+           y == P[k]
+           P2 == SubSeq(P, 1, k - 1) \o <<X \cap y, y \ X>> \o SubSeq(P, k + 1, Len(P))
+       IN Refine(P2, X, k, Append(reps, <<y, X \cap y, y \ X>>))
+RECURSIVE UpdW(_, _, _)
+UpdW(W, reps, k) ==
+  IF k > Len(reps) THEN W
+  ELSE LET y == reps[k][1]
+           i == reps[k][2]
+           d == reps[k][3]
+           pos == {j \in DOMAIN W : W[j] = y} IN
+       IF pos # {}
+       THEN LET j == Min(pos) IN
+            UpdW(SubSeq(W, 1, j - 1) \o SubSeq(W, j + 1, Len(W)) \o <<i, d>>, reps, k + 1)
+       ELSE IF Cardinality(i) <= Cardinality(d) THEN UpdW(Append(W, i), reps, k + 1)
+            ELSE UpdW(Append(W, d), reps, k + 1)
+RECURSIVE ForLabels(_, _, _, _, _)
+ForLabels(gr, P, W, A, labs) ==
+  IF labs = <<>> THEN [P |-> P, W |-> W]
+  ELSE LET r == Refine(P, Parents(gr, A, Head(labs)), 1, <<>>) IN
+       ForLabels(gr, r.P, UpdW(W, r.reps, 1), A, Tail(labs))
+RECURSIVE Hop(_, _, _)
+Hop(gr, P, W) == IF W = <<>> THEN P
+                 ELSE LET r == ForLabels(gr, P, Tail(W), Head(W), AlphaSeq(gr)) IN Hop(gr, r.P, r.W)
+Partition(gr) ==
+  LET nonfin == (0 .. gr.n - 1) \ gr.fin
+      P0 == <<nonfin, gr.fin>> IN
+  SelectSeq(Hop(gr, P0, P0), LAMBDA b : b # {})
+
+(***************************************************************************)
+(* S8  src/dfa.rs recreate_graph: one state per block in sequence order,   *)
+(* the smallest member represents the block, its out-edges are copied in   *)
+(* adjacency order.  As built (Dev.finals) a new state is final only if it *)
+(* is the TARGET of a copied edge whose old target was final.              *)
+(***************************************************************************)
+ClassOf(P, s) == CHOOSE k \in DOMAIN P : s \in P[k]
+Recreate(gr, P, dev) ==
+  LET RECURSIVE Go(_, _)
+      Go(k, es) ==
+        IF k > Len(P) THEN es
+        ELSE LET rep == Min(P[k])
+                 nb == NbrIdx(gr, rep)
+                 new == [j \in DOMAIN nb |-> [s |-> k - 1, d |-> ClassOf(P, gr.es[nb[j]].d) - 1,
+                                              sym |-> gr.es[nb[j]].sym]]
+             IN Go(k + 1, es \o new)
+      es == Go(1, <<>>)
+      reps == {Min(P[k]) : k \in DOMAIN P}
+      fin == IF dev.finals
+             THEN {ClassOf(P, gr.es[i].d) - 1 :
+                      i \in {j \in DOMAIN gr.es : gr.es[j].s \in reps /\ gr.es[j].d \in gr.fin}}
+             ELSE {k - 1 : k \in {j \in DOMAIN P : P[j] \cap gr.fin # {}}}
+  IN [n |-> Len(P), es |-> es, fin |-> fin, init |-> ClassOf(P, 0) - 1]
+Minimize(gr, dev) == Recreate(gr, Partition(gr), dev)
+
+(***************************************************************************)
+(* S9  src/expression.rs: state elimination in depth-first order with the  *)
+(* simplifying union / concatenate.  Expressions:                          *)
+(*   [t |-> "none"] | lit(gs) | cc(S) | cat2(a, b) | altn(xs) | opt(x)     *)
+(* where gs is a sequence of symbols and S a set of atoms.                 *)
+(***************************************************************************)
+XNone == [t |-> "none"]
+XLit(gs) == [t |-> "lit", gs |-> gs]
+XCC(S) == [t |-> "cc", s |-> S]
+XCat(x, y) == [t |-> "cat2", a |-> x, b |-> y]
+XAlt(xs) == [t |-> "altn", xs |-> xs]
+XOpt(x) == [t |-> "opt", x |-> x]
+
+XIsNone(e) == e.t = "none"
+XIsEmpty(e) == e.t = "lit" /\ e.gs = <<>>
+RECURSIVE CharCount(_)
+CharCount(gs) == IF gs = <<>> THEN 0 ELSE Len(Head(gs).u) + CharCount(Tail(gs))
+XIsSingle(e) == \/ e.t = "cc"
+                \/ (e.t = "lit" /\ e.gs # <<>> /\ CharCount(e.gs) = 1 /\ e.gs[1].hi = 1)
+RECURSIVE XLen(_)
+XLen(e) == CASE e.t = "altn" -> XLen(e.xs[1])
+             [] e.t = "cc"   -> 1
+             [] e.t = "cat2" -> XLen(e.a) + XLen(e.b)
+             [] e.t = "lit"  -> Len(e.gs)
+             [] e.t = "opt"  -> XLen(e.x)
+XPrec(e) == CASE e.t \in {"altn", "cc"} -> 1 [] e.t \in {"cat2", "lit"} -> 2 [] e.t = "opt" -> 3
+
+ValueOf(e, side) ==
+  CASE e.t = "lit" -> e.gs
+    [] e.t = "cat2" -> (IF side = "prefix" THEN (IF e.a.t = "lit" THEN e.a.gs ELSE <<>>)
+                                           ELSE (IF e.b.t = "lit" THEN e.b.gs ELSE <<>>))
+    [] OTHER -> <<>>
+RECURSIVE CommonPrefix(_, _)
+CommonPrefix(x, y) == IF x = <<>> \/ y = <<>> \/ Head(x) # Head(y) THEN <<>>
+                      ELSE <<Head(x)>> \o CommonPrefix(Tail(x), Tail(y))
+FindCommon(e1, e2, side) ==
+  LET x == ValueOf(e1, side)
+      y == ValueOf(e2, side) IN
+  IF side = "prefix" THEN CommonPrefix(x, y) ELSE Reverse(CommonPrefix(Reverse(x), Reverse(y)))
+DropN(gs, side, n) == IF side = "prefix" THEN SubSeq(gs, n + 1, Len(gs)) ELSE SubSeq(gs, 1, Len(gs) - n)
+RemoveSub(e, side, n) ==
+  CASE e.t = "lit" -> XLit(DropN(e.gs, side, n))
+    [] e.t = "cat2" -> (IF side = "prefix"
+                        THEN (IF e.a.t = "lit" THEN XCat(XLit(DropN(e.a.gs, side, n)), e.b) ELSE e)
+                        ELSE (IF e.b.t = "lit" THEN XCat(e.a, XLit(DropN(e.b.gs, side, n))) ELSE e))
+    [] OTHER -> e
+
+RECURSIVE Flatten(_)
+Flatten(xs) == IF xs = <<>> THEN <<>>
+               ELSE (IF Head(xs).t = "altn" THEN Flatten(Head(xs).xs) ELSE <<Head(xs)>>) \o Flatten(Tail(xs))
+(* Vec::sort_by_key(Reverse(len)) is stable: insertion sort by descending length *)
+RECURSIVE InsertDesc(_, _), SortDesc(_)
+InsertDesc(sorted, e) ==
+  IF sorted = <<>> THEN <<e>>
+  ELSE IF XLen(Head(sorted)) >= XLen(e) THEN <<Head(sorted)>> \o InsertDesc(Tail(sorted), e)
+       ELSE <<e>> \o sorted
+SortDesc(xs) == IF xs = <<>> THEN <<>> ELSE InsertDesc(SortDesc(Front(xs)), Last(xs))
+NewAlt(xs) == XAlt(SortDesc(Flatten(xs)))
+
+Concatenate(x, y) ==
+  IF XIsNone(x) \/ XIsNone(y) THEN XNone
+  ELSE IF XIsEmpty(x) THEN y
+  ELSE IF XIsEmpty(y) THEN x
+  ELSE IF x.t = "lit" /\ y.t = "lit" THEN XLit(x.gs \o y.gs)
+  ELSE IF x.t = "lit" /\ y.t = "cat2" /\ y.a.t = "lit" THEN XCat(XLit(x.gs \o y.a.gs), y.b)
+  ELSE IF y.t = "lit" /\ x.t = "cat2" /\ x.b.t = "lit" THEN XCat(x.a, XLit(x.b.gs \o y.gs))
+  ELSE XCat(x, y)
+
+XCharSet(e) == IF e.t = "cc" THEN e.s ELSE {e.gs[1].u[1][1]}
+
+XUnion(x, y) ==
+  IF XIsNone(x) THEN y
+  ELSE IF XIsNone(y) THEN x
+  ELSE IF x = y THEN x
+  ELSE
+    LET pre == FindCommon(x, y, "prefix")
+        x1 == IF pre = <<>> THEN x ELSE RemoveSub(x, "prefix", Len(pre))
+        y1 == IF pre = <<>> THEN y ELSE RemoveSub(y, "prefix", Len(pre))
+        suf == FindCommon(x1, y1, "suffix")
+        x2 == IF suf = <<>> THEN x1 ELSE RemoveSub(x1, "suffix", Len(suf))
+        y2 == IF suf = <<>> THEN y1 ELSE RemoveSub(y1, "suffix", Len(suf))
+        core == IF XIsEmpty(x2) THEN XOpt(y2)
+                ELSE IF XIsEmpty(y2) THEN XOpt(x2)
+                ELSE IF x2.t = "opt" THEN XOpt(NewAlt(<<x2.x, y2>>))
+                ELSE IF y2.t = "opt" THEN XOpt(NewAlt(<<x2, y2.x>>))
+                ELSE IF XIsSingle(x2) /\ XIsSingle(y2) THEN XCC(XCharSet(x2) \cup XCharSet(y2))
+                ELSE NewAlt(<<x2, y2>>)
+        withPre == IF pre = <<>> THEN core ELSE XCat(XLit(pre), core)
+    IN IF suf = <<>> THEN withPre ELSE XCat(withPre, XLit(suf))
+
+(* petgraph Dfs from the initial state *)
+GNbrIdx(g, s) == DescSeq({i \in DOMAIN g.es : g.es[i].s = s})
+RECURSIVE DfsGo(_, _, _)
+DfsGo(g, stack, seen) ==
+  IF stack = <<>> THEN <<>>
+  ELSE LET node == Last(stack)
+           rest == Front(stack) IN
+       IF node \in seen THEN DfsGo(g, rest, seen)
+       ELSE LET nb == GNbrIdx(g, node)
+                tgt == [j \in DOMAIN nb |-> g.es[nb[j]].d]
+                push == SelectSeq(tgt, LAMBDA d : d \notin seen /\ d # node)
+            IN <<node>> \o DfsGo(g, rest \o push, seen \cup {node})
+DfsOrder(g, init) == DfsGo(g, <<init>>, {})
+PosIn(seq, x) == CHOOSE i \in DOMAIN seq : seq[i] = x
+
+InitA(g, ord) ==
+  LET N == Len(ord)
+      RECURSIVE Row(_, _)
+      Row(nb, row) ==
+        IF nb = <<>> THEN row
+        ELSE LET e == g.es[Head(nb)]
+                 j == PosIn(ord, e.d)
+                 lit == XLit(<<e.sym>>) IN
+             Row(Tail(nb), [row EXCEPT ![j] = IF XIsNone(@) THEN lit ELSE XUnion(@, lit)])
+  IN [i \in 1 .. N |-> Row(GNbrIdx(g, ord[i]), [j \in 1 .. N |-> XNone])]
+InitB(g, ord) == [i \in 1 .. Len(ord) |-> IF ord[i] \in g.fin THEN XLit(<<>>) ELSE XNone]
+
+RECURSIVE Elim(_, _, _)
+Elim(A, B, n) ==
+  IF n = 0 THEN B
+  ELSE LET RECURSIVE Rows(_, _, _)
+           Rows(i, A1, B1) ==
+             IF i >= n THEN [A |-> A1, B |-> B1]
+             ELSE IF XIsNone(A1[i][n]) THEN Rows(i + 1, A1, B1)
+             ELSE LET b2 == XUnion(B1[i], Concatenate(A1[i][n], B1[n]))
+                      row == [j \in DOMAIN A1[i] |->
+                                IF j < n THEN XUnion(A1[i][j], Concatenate(A1[i][n], A1[n][j])) ELSE A1[i][j]]
+                  IN Rows(i + 1, [A1 EXCEPT ![i] = row], [B1 EXCEPT ![i] = b2])
+           r == Rows(1, A, B)
+       IN Elim(r.A, r.B, n - 1)
+(* g = [n, es, fin], init = initial state; the trie is acyclic, so no self loops arise *)
+ToExpr(g, init) ==
+  LET ord == DfsOrder(g, init)
+      B == Elim(InitA(g, ord), InitB(g, ord), Len(ord)) IN
+  IF XIsNone(B[1]) THEN XLit(<<>>) ELSE B[1]
+
+(* meaning of an expression in terms of Lang's ASTs *)
+RECURSIVE XToLang(_)
+XToLang(e) ==
+  CASE e.t = "lit"  -> [t |-> "lit", syms |-> e.gs]
+    [] e.t = "cc"   -> [t |-> "cls", s |-> SetToSeq(e.s)]
+    [] e.t = "cat2" -> [t |-> "cat", xs |-> <<XToLang(e.a), XToLang(e.b)>>]
+    [] e.t = "altn" -> [t |-> "alt", xs |-> [i \in DOMAIN e.xs |-> XToLang(e.xs[i])]]
+    [] e.t = "opt"  -> [t |-> "rep", x |-> XToLang(e.x), lo |-> 0, hi |-> 1, g |-> TRUE]
+
+(***************************************************************************)
+(* S11  src/format.rs / grapheme.rs: printing.  The bounded models use the *)
+(* atoms 1, 2, 3, ... for the characters a, b, c, ...                      *)
+(***************************************************************************)
+Letters == <<"a", "b", "c", "d", "e", "f">>
+RECURSIVE Join(_)
+Join(ss) == IF ss = <<>> THEN "" ELSE Head(ss) \o Join(Tail(ss))
+Digits == <<"0", "1", "2", "3", "4", "5", "6", "7", "8", "9">>
+RECURSIVE NatStr(_)
+NatStr(n) == IF n < 10 THEN Digits[n + 1] ELSE NatStr(n \div 10) \o Digits[(n % 10) + 1]
+
+Grp(str, cfg) == (IF cfg.capture THEN "(" ELSE "(?:") \o str \o ")"
+
+RECURSIVE PrintSym(_, _)
+PrintSym(sym, cfg) ==
+  LET value == IF sym.nest = <<>> THEN Join([i \in DOMAIN sym.u |-> Letters[sym.u[i][1]]])
+               ELSE Join([i \in DOMAIN sym.nest |-> PrintSym(sym.nest[i], cfg)])
+      single == Len(sym.u) = 1
+      body == IF single THEN value ELSE Grp(value, cfg)
+  IN IF sym.lo = 1 /\ sym.hi = 1 THEN value
+     ELSE IF sym.lo = sym.hi THEN body \o "{" \o NatStr(sym.lo) \o "}"
+     ELSE body \o "{" \o NatStr(sym.lo) \o "," \o NatStr(sym.hi) \o "}"
+
+(* character class: runs of three or more consecutive code points are written first-last *)
+RECURSIVE ClassRuns(_, _)
+ClassRuns(atoms, cur) ==
+  LET flush == IF Len(cur) <= 2 THEN Join([i \in DOMAIN cur |-> Letters[cur[i]]])
+               ELSE Letters[cur[1]] \o "-" \o Letters[cur[Len(cur)]] IN
+  IF atoms = <<>> THEN flush
+  ELSE IF cur # <<>> /\ Head(atoms) = cur[Len(cur)] + 1 THEN ClassRuns(Tail(atoms), Append(cur, Head(atoms)))
+       ELSE flush \o ClassRuns(Tail(atoms), <<Head(atoms)>>)
+PrintClass(S) == LET sorted == SortSeq(SetToSeq(S), <) IN
+                 "[" \o ClassRuns(Tail(sorted), <<Head(sorted)>>) \o "]"
+
+RECURSIVE PrintX(_, _)
+PrintX(e, cfg) ==
+  LET Child(c, parent) == IF XPrec(c) < XPrec(parent) /\ ~XIsSingle(c) THEN Grp(PrintX(c, cfg), cfg)
+                          ELSE PrintX(c, cfg)
+  IN CASE e.t = "lit"  -> Join([i \in DOMAIN e.gs |-> PrintSym(e.gs[i], cfg)])
+       [] e.t = "cc"   -> PrintClass(e.s)
+       [] e.t = "cat2" -> Child(e.a, e) \o Child(e.b, e)
+       [] e.t = "altn" -> LET RECURSIVE Bars(_)
+                              Bars(xs) == IF Len(xs) = 1 THEN Child(xs[1], e)
+                                          ELSE Child(Head(xs), e) \o "|" \o Bars(Tail(xs))
+                          IN Bars(e.xs)
+       [] e.t = "opt"  -> Child(e.x, e) \o "?"
+
+PrintRegex(e, cfg) ==
+  (IF cfg.icase THEN "(?i)" ELSE "")
+  \o (IF cfg.nostart THEN "" ELSE "^")
+  \o (IF e.t = "altn" THEN Grp(PrintX(e, cfg), cfg) ELSE PrintX(e, cfg))
+  \o (IF cfg.noend THEN "" ELSE "$")
+
+(***************************************************************************)
+(* S10  src/regexp.rs: when the end anchor is disabled every test case     *)
+(* must be found as a whole; otherwise fall back to the un-minimised       *)
+(* automaton and finally to the alternation of all test cases, longest     *)
+(* first.                                                                  *)
+(***************************************************************************)
+WholeFound(e, tcs) == \A i \in DOMAIN tcs : Find(XToLang(e), tcs[i]) = <<0, Len(tcs[i])>>
+
+RECURSIVE InsertByLen(_, _)
+InsertByLen(sorted, w) ==
+  IF sorted = <<>> THEN <<w>>
+  ELSE IF Len(Head(sorted)) >= Len(w) THEN <<Head(sorted)>> \o InsertByLen(Tail(sorted), w)
+       ELSE <<w>> \o sorted
+RECURSIVE SortByLenDesc(_)
+SortByLenDesc(ws) == IF ws = <<>> THEN <<>> ELSE InsertByLen(SortByLenDesc(Front(ws)), Last(ws))
+FallbackAlt(tcs) == XAlt([i \in DOMAIN tcs |-> XLit(PlainCluster(SortByLenDesc(tcs)[i]))])
+
+(* the whole pipeline on a set of words, no class / repetition conversion *)
+Pipeline(T, cfg, dev) ==
+  LET tcs == SortTcs(T)
+      clusters == [i \in DOMAIN tcs |-> PlainCluster(tcs[i])]
+      trie == BuildTrie(clusters, dev)
+      min == Minimize(trie, dev)
+      e1 == ToExpr(min, min.init)
+      e2 == ToExpr([trie EXCEPT !.fin = trie.fin], 0)
+      final == IF ~cfg.noend \/ WholeFound(e1, tcs) THEN e1
+               ELSE IF WholeFound(e2, tcs) THEN e2
+               ELSE FallbackAlt(tcs)
+  IN [tcs |-> tcs, clusters |-> clusters, trie |-> trie, min |-> min, e1 |-> e1, final |-> final,
+      out |-> PrintRegex(final, cfg)]
 =============================================================================
